@@ -52,7 +52,8 @@ def alphabet(env):
             ("bad", "P", "ps_loss_value"), ("bad", "Q", "swap_incomplete"), ("bad", "P", "herald_range"),
             ("bad", "Q", "herald_dup"), ("bad", "Q", "herald_dup_out"), ("bad", "P", "herald_dup"), ("edit", "Q", "herald"), ("bad", "P", "add_oversize_A"), ("bad", "Q", "add_oversize_B"),
             ("bad", "P", "add_not_circuit"), ("bad", "P", "add_negative"), ("bad", "Q", "bs_conv"),
-            ("bad", "P", "herald_type"), ("bad", "Q", "add_oversize_span")]
+            ("bad", "P", "herald_type"), ("bad", "Q", "add_oversize_span"), ("bad", "Q", "add_oversize_heralded_span"),
+            ("bad", "P", "add_oversize_heralded_span")]
     return ops
 
 
@@ -151,6 +152,10 @@ def apply_op(pool, op, env):
             elif what == "add_oversize_A": c.add(pool["A"], 3)
             elif what == "add_oversize_B": c.add(pool["B"], 3)
             elif what == "add_oversize_span": c.add(lw.Unitary(env.U[4].copy()), 1)
+            elif what == "add_oversize_heralded_span":
+                # fits by a plain mode count, oversize only because an ancilla lies inside the span
+                hs = lw.Unitary(env.U[5].copy()); hs.herald(1, 2, 2)
+                c.add(hs, 1)
             elif what == "add_not_circuit": c.add("circuit", 0)
             elif what == "add_negative": c.add(pool["A"], -1)
             elif what == "bs_conv": c.bs(0, 1, convention="Q")
